@@ -9,7 +9,48 @@ open Paloma.Libcons
   `median <vals v,…>`                          → `<m>`
   `addev <evs a:h,…> <a:h>`                    → `<evs>`
   `setelected <cur> <new>`                     → `refused` | `set v`
-  `addest <ests a:v,…> <a:v>`                  → `refused` | `<ests>` -/
+  `addest <ests a:v,…> <a:v>`                  → `refused` | `<ests>`
+  `hist <op> <op> …`                           → `<res> <res> … | <final state>` (see `showRes`, `showHist`): a whole history of the
+     C04 history model from its initial state; op tokens (fields separated by `/`):
+     `s/<total>/<vals>` snapshot, `p/<0|1>` put, `v/<id>/<a>/<h>` evidence, `g/<id>/<a>/<v>` gas estimate
+     (`v` must fit `uint64`), `e/<id>/<0|1>` elect (fee step ok?), `a/<id>/<hint>/<hard hashes>/<soft hashes>` attest (hashes on which the attester fails),
+     `x/<id>` prune -/
+def parseHistOp? (tok : String) : Option Hist.Op :=
+  match tok.splitOn "/" with
+  | ["s", t, vs] => do pure (.snap ⟨← parsePairList? vs, ← parseNat? t⟩)
+  | ["p", "0"] => some (.put false)
+  | ["p", "1"] => some (.put true)
+  | ["v", i, a, h] => do pure (.ev (← parseNat? i) (← parseNat? a) (← parseNat? h))
+  | ["g", i, a, v] => do
+    let v ← parseNat? v
+    if v < U64 then pure (.est (← parseNat? i) (← parseNat? a) v) else none
+  | ["e", i, "0"] => do pure (.elect (← parseNat? i) false)
+  | ["e", i, "1"] => do pure (.elect (← parseNat? i) true)
+  | ["a", i, h, hard, soft] => do
+    pure (.attest (← parseNat? i) ((parseNat? h).getD 0) (← parseNatList? hard) (← parseNatList? soft))
+  | ["x", i] => do pure (.prune (← parseNat? i))
+  | _ => none
+
+/-- what the harness can observe of a result: the new id, accepted / refused, a new elected value, a
+    declaration (with the winning proof); every branch that leaves the state untouched prints `-` -/
+def showRes : Hist.Res → String
+  | .ok => "ok"
+  | .rejected => "rejected"
+  | .newId n => s!"id:{n}"
+  | .elected v => s!"elected:{v}"
+  | .declared h false => s!"declared:{h}"
+  | .declared h true => s!"declaredsoft:{h}"
+  | .absent | .skipped | .notAchieved | .zero | .refused | .feeFailed | .noEvidence | .hardFail _ => "-"
+
+def showItem (it : Hist.Item) : String :=
+  s!"{it.id}/{if it.req then 1 else 0}/{it.elected}/{showPairList it.ests}/{showPairList it.evs}"
+
+def showHist (s : Hist.St) : String :=
+  let q := if s.queue.isEmpty then "-" else ";".intercalate (s.queue.map showItem)
+  let d := if s.declared.isEmpty then "-" else
+    ",".intercalate (s.declared.map fun x => s!"{x.1}:{x.2.1}:{if x.2.2 then 1 else 0}")
+  s!"next={s.nextId} q={q} declared={d}"
+
 def step (args : List String) : String :=
   match args with
   | ["evidence", t, vs, es, hint] =>
@@ -52,6 +93,11 @@ def step (args : List String) : String :=
       | none => "refused"
       | some es' => showPairList es'
     | _, _ => "bad-op"
+  | "hist" :: toks =>
+    match toks.mapM parseHistOp? with
+    | some ops =>
+      " ".intercalate ((Hist.trace ops).map showRes) ++ " | " ++ showHist (Hist.run ops)
+    | none => "bad-op"
   | _ => "bad-op"
 
 end Driver.C04
